@@ -6,5 +6,9 @@
                        collector: &Self::Collector, r: Result<(), NutsError>) -> bool {
         et_adapt_post::<M>(*self, *post, *h0, *h1, draw, *collector, r)
     }
+    open spec fn init_pre(&self) -> bool { strat_wf(self.step_size) }
+    open spec fn init_post(&self, post: &Self, h0: &Self::Hamiltonian, h1: &Self::Hamiltonian, r: Result<(), NutsError>) -> bool {
+        et_init_post::<M>(*self, *post, *h0, *h1, r)
+    }
     open spec fn tuning_view(&self) -> bool { self.tuning }
     open spec fn last_steps_view(&self) -> u64 { self.step_size.last_n_steps }
